@@ -522,6 +522,26 @@ def head_overrides(case):
                 elif case["iso"] == "SWT" and not changed and not added:
                     mech = "head_override_lost_for_aliased_country_code"
                 cx.bad(mech, "%s=%d: herd table row has %s=%r, changed columns %s, new columns %s" % (col, val, col, row.get(col), changed[:4], added[:4]), species=sp, column=col)
+        # several overrides in one option dictionary, in an order that is not alphabetical: every value in its own column
+        rnd = random.Random(case.get("gen_seed", 0) * 31 + len(case["iso"]))
+        for trial in range(6):
+            sps = rnd.sample(case["species"], rnd.choice([2, 3, 4]))
+            if sps == sorted(sps):
+                sps.reverse()
+            consts = {}
+            for j, sp in enumerate(sps):
+                consts[sp + "_head_start"] = 1000 + 137 * j + trial
+            row = table_row(consts)
+            cx.n["multi_head_overrides"] += 1
+            if row is None:
+                cx.bad("head_table_not_observed", "several overrides %s: create_animal_objects not reached" % sps)
+                continue
+            wrong = {sp: row.get(sp + "_head") for sp in sps if row.get(sp + "_head") != consts[sp + "_head_start"]}
+            others = [k for k in base_row.index if k not in [sp + "_head" for sp in sps] and differs(base_row[k], row[k])
+                      and not (isinstance(base_row[k], float) and np.isnan(base_row[k]) and isinstance(row[k], float) and np.isnan(row[k]))]
+            if wrong or others or [k for k in row.index if k not in base_row.index]:
+                cx.bad("head_override_wrong", "overrides given together as %s: columns hold %s, other columns changed %s" % (
+                    {sp: consts[sp + "_head_start"] for sp in sps}, wrong, others[:4]), species=sps, together=True)
     finally:
         ap.AnimalModelBuilder.create_animal_objects = orig
     return cx
